@@ -290,6 +290,8 @@ pub struct App {
     /// the control service takes its time with every "write back-pressure enabled" notification:
     /// it stays pending until the controller opens its gate
     pub wr_on_gated: Cell<bool>,
+    /// a planned refusal (`Outcome::Nack`) is applied to QoS 1/2 publishes only
+    pub refusals_need_an_ack: Cell<bool>,
 }
 
 impl App {
@@ -337,6 +339,7 @@ impl App {
             proto_inner: RefCell::new(VecDeque::new()),
             ack_decor: RefCell::new(None),
             wr_on_gated: Cell::new(false),
+            refusals_need_an_ack: Cell::new(false),
         })
     }
 
